@@ -1580,3 +1580,38 @@ func capturedTransparentArg(fv *ssa.FreeVar) ssa.Value {
 	}
 	return nil
 }
+
+// mustPassAvoiding: every path from the entry of fn to instruction `to` that takes none of the edges for which skip
+// (block, successor index) holds passes an instruction satisfying pred before reaching `to`.
+func mustPassAvoiding(fn *ssa.Function, to ssa.Instruction, pred0 func(ssa.Instruction) bool, skip func(b *ssa.BasicBlock, idx int) bool) bool {
+	pred := func(in ssa.Instruction) bool { return pred0(in) || transparentPass(in, pred0, 0) }
+	seen := map[*ssa.BasicBlock]bool{}
+	var visit func(b *ssa.BasicBlock) bool // false = `to` reached without pred
+	visit = func(b *ssa.BasicBlock) bool {
+		if seen[b] {
+			return true
+		}
+		seen[b] = true
+		for _, in := range b.Instrs {
+			if in == to {
+				return false
+			}
+			if pred(in) {
+				return true
+			}
+		}
+		for i, s := range b.Succs {
+			if skip(b, i) {
+				continue
+			}
+			if !visit(s) {
+				return false
+			}
+		}
+		return true
+	}
+	if len(fn.Blocks) == 0 {
+		return false
+	}
+	return visit(fn.Blocks[0])
+}
